@@ -31,6 +31,7 @@ def run(ctx):
     deep = 5 if q else 7
     expected_tiles = {x["pos"]: x for x in t.tiles}
     worst = {"corner": 0.0, "route": 0.0, "shared": 0.0, "area": 0.0}
+    reals = {}
     for csname, cs in toastlat.coordsystems():
         psi = toastlat.psi_for(t, csname)
         ctx.note("grid_selfcheck_" + csname, toastlat.selfcheck_grid(psi, ctx.rng))
@@ -122,33 +123,7 @@ def run(ctx):
                 worst["route"] = max(worst["route"], d)
                 if d > XTOL or bool(tile.increasing) != bool(ref.increasing):
                     ctx.violation("C04:route:filtered", "tile %s [%s] from filtered enumeration differs from full enumeration (%.2e)" % (tuple(tile.pos), csname, d), {"pos": tuple(tile.pos), "cs": csname})
-        # ---- route 3: single-tile construction; route 4: point lookup of the centre; route 5: Pyramid._generator
-        sample = list(real)
-        if q:
-            sample = [p for p in sample if p[0] <= 3] + ctx.rng.sample([p for p in sample if p[0] > 3], 300)
-        for pos in sample:
-            ref = real[pos]
-            rv = toastlat.tile_vecs(ref)
-            one = toast.create_single_tile(Pos(*pos), coordsys=cs)
-            ctx.count()
-            d = float(np.abs(toastlat.tile_vecs(one) - rv).max())
-            worst["route"] = max(worst["route"], d)
-            if d > XTOL or bool(one.increasing) != bool(ref.increasing) or tuple(one.pos) != pos:
-                ctx.violation("C04:route:single", "create_single_tile(%s) [%s] differs from enumeration (%.2e, increasing %s vs %s)" % (pos, csname, d, one.increasing, ref.increasing), {"pos": pos, "cs": csname})
-            cen = psi.centre(*pos)
-            lon, lat = lattice.vec_to_lonlat(cen)
-            try:
-                lk = toast.toast_tile_for_point(pos[0], float(lat), float(lon), coordsys=cs)
-            except Exception as e:  # noqa
-                ctx.violation("C04:route:lookup", "toast_tile_for_point raised %r for the centre of %s [%s]" % (e, pos, csname), {"pos": pos, "cs": csname})
-                continue
-            ctx.count()
-            if tuple(lk.pos) != pos:
-                ctx.violation("C04:route:lookup", "point lookup of the centre of tile %s [%s] returns tile %s" % (pos, csname, tuple(lk.pos)), {"pos": pos, "cs": csname})
-            else:
-                d = float(np.abs(toastlat.tile_vecs(lk) - rv).max())
-                if d > XTOL or bool(lk.increasing) != bool(ref.increasing):
-                    ctx.violation("C04:route:lookup", "tile %s [%s] from point lookup has different corners than enumeration (%.2e)" % (pos, csname, d), {"pos": pos, "cs": csname})
+        reals[csname] = real
         pd = 3
         for ppos, ptile in Pyramid.new_toast(pd, coordsys=cs)._generator():
             if ptile is None:
@@ -177,6 +152,41 @@ def run(ctx):
                 worst["area"] = max(worst["area"], rel)
                 if rel > 1e-9:
                     ctx.violation("C04:area:nesting", "tile %s [%s]: area %.6e but its children sum to %.6e" % (pos, csname, a, s), {"pos": pos, "cs": csname})
+    # ---- route 3: single-tile construction; route 4: point lookup of the centre - with the two coordinate systems
+    # INTERLEAVED call by call, so that any state kept between calls (a memo keyed without the coordinate system ...) shows
+    sample = list(reals["astronomical"])
+    if q:
+        sample = [p for p in sample if p[0] <= 3] + ctx.rng.sample([p for p in sample if p[0] > 3], 300)
+    csl = toastlat.coordsystems()
+    psis = {n_: toastlat.psi_for(t, n_) for n_, _c in csl}
+    for pos in sample:
+        order = csl if ctx.rng.random() < 0.5 else csl[::-1]
+        for csname, cs in order:
+            real = reals[csname]
+            psi = psis[csname]
+            if True:
+                ref = real[pos]
+                rv = toastlat.tile_vecs(ref)
+                one = toast.create_single_tile(Pos(*pos), coordsys=cs)
+                ctx.count()
+                d = float(np.abs(toastlat.tile_vecs(one) - rv).max())
+                worst["route"] = max(worst["route"], d)
+                if d > XTOL or bool(one.increasing) != bool(ref.increasing) or tuple(one.pos) != pos:
+                    ctx.violation("C04:route:single", "create_single_tile(%s) [%s] differs from enumeration (%.2e, increasing %s vs %s)" % (pos, csname, d, one.increasing, ref.increasing), {"pos": pos, "cs": csname})
+                cen = psi.centre(*pos)
+                lon, lat = lattice.vec_to_lonlat(cen)
+                try:
+                    lk = toast.toast_tile_for_point(pos[0], float(lat), float(lon), coordsys=cs)
+                except Exception as e:  # noqa
+                    ctx.violation("C04:route:lookup", "toast_tile_for_point raised %r for the centre of %s [%s]" % (e, pos, csname), {"pos": pos, "cs": csname})
+                    continue
+                ctx.count()
+                if tuple(lk.pos) != pos:
+                    ctx.violation("C04:route:lookup", "point lookup of the centre of tile %s [%s] returns tile %s" % (pos, csname, tuple(lk.pos)), {"pos": pos, "cs": csname})
+                else:
+                    d = float(np.abs(toastlat.tile_vecs(lk) - rv).max())
+                    if d > XTOL or bool(lk.increasing) != bool(ref.increasing):
+                        ctx.violation("C04:route:lookup", "tile %s [%s] from point lookup has different corners than enumeration (%.2e)" % (pos, csname, d), {"pos": pos, "cs": csname})
     # seeded deep positions (corners and orientation through single-tile construction vs psi)
     for _ in range(60 if q else 1500):
         n = ctx.rng.randint(6, 20)
